@@ -21,7 +21,7 @@ BASES = ['Bernstein', 'Bspline', 'Chebyshev1st', 'Chebyshev2nd', 'Hermite', 'Lag
 KMAX, PMAX, LGRMAX = 10, 4, 16
 GEN_PATH = os.path.join(vlib.LEAN, 'SmoothProofs', 'Gen', 'PolyTables.lean')
 EXACT_OPS = ('poly_monoderiv', 'poly_monoderivs', 'poly_lagrange', 'poly_basisderivs', 'poly_intabs',
-             'search_f64', 'search_int', 'poly_basis', 'poly_cumbasis', 'poly_monint', 'poly_lgr')
+             'search_f64', 'search_int', 'search2_f64', 'search2_int', 'poly_basis', 'poly_cumbasis', 'poly_monint', 'poly_lgr')
 TOL = 1e-9
 
 
@@ -304,10 +304,10 @@ def audit_search(l):
     """the four documented cases (+ iteration bound)"""
     t = dec(l.ins[0], 'f64')
     r = [dec(w, 'f64') for w in l.ins[1:]]
-    if l.op == 'search_int':
+    if l.op in ('search_int', 'search2_int'):
         r = [float(int(v)) for v in r]
     o = [dec(w, 'f64') for w in l.outs]
-    idx, iters = o[0], o[1]
+    idx, iters = o[0], (o[1] if len(o) > 1 else 0)
     n = len(r)
     if idx != int(idx) or not (0 <= idx <= n):
         return f'returned iterator outside [begin,end]: index {idx}'
